@@ -314,6 +314,11 @@ class OperatorProgram:
             rec['attempt'] = n
             behaviour = h.get('behaviour', 'obey')
             rec['behaviour'] = behaviour
+
+            async def _flag_watch():
+                await stopped.wait()
+                rec['flag_set_at'] = prog._now()
+            flag_watch = asyncio.create_task(_flag_watch())
             try:
                 if behaviour == 'exit':
                     if dur:
@@ -342,6 +347,9 @@ class OperatorProgram:
                 rec['outcome'] = 'cancelled'
                 raise
             finally:
+                flag_watch.cancel()
+                if bool(stopped) and rec.get('flag_set_at') is None:
+                    rec['flag_set_at'] = prog._now()
                 rec['t1'] = prog._now()
                 rec['seq1'] = prog.sim.world.tick()
                 rec['stopped_reason'] = str(stopped.reason) if getattr(stopped, 'reason', None) is not None else None
